@@ -713,6 +713,9 @@ def encodings_of(text):
 OPTION_SETS = [None,
                {"prefer_cif2": -1}, {"prefer_cif2": 1}, {"prefer_cif2": 20}, {"max_frame_depth": 0}, {"max_frame_depth": -1},
                {"fold": -1, "prefix": -1}, {"fold": 1, "prefix": 1, "prefer_cif2": -1}, {"fold": 1, "prefix": -1}, {"extra_ws": "\x0b", "extra_eol": "\x0c"},
+               # C1 controls and other bytes >= 0x80 in the extra character sets (cif.h allows C1 controls there; the harness
+               # hands the UTF-8 bytes over, so lead bytes 0xC2 / 0xC3 and continuation bytes 0x85 .. 0xBF occur)
+               {"extra_ws": "\u0085", "extra_eol": "\u009f"}, {"extra_ws": "\u00a0\u00ff", "extra_eol": "\u00ed"},
                {"enc": "ISO-8859-1"}, {"enc": "ISO-8859-1", "force": 1}, {"enc": "UTF-16LE", "force": 1}, {"force": 1}, {"enc": "UTF-8", "force": 1, "prefer_cif2": 1},
                {"enc": "no-such-encoding", "force": 1}, {"enc": "no-such-encoding"}]
 
